@@ -175,6 +175,52 @@ def clause_table(ctx, cls, ps):
     ctx.setcount('clause_value_rows', nrows)
 
 
+def cte_table(ctx, cls, ps):
+    """prepare_select interpreted on a select with a WITH clause, for every dialect name SQLAlchemy knows the renderer's targets by: each common table expression
+    must be made from its own query and attached to the select it belongs to *at that level* (`nesting=True`).  Reference (SQLAlchemy HasCTE.cte / add_cte):
+    without nesting the WITH list is moved to the top of the whole statement, where the name also captures references outside the sub-select it was written in."""
+    from ..interp import Interp, Obj, Raised, Env
+    from ..interp import class_members
+    methods = {'SqlalchemyRender': class_members(cls)}
+    nrows = 0
+    for dname in ('mysql', 'postgresql', 'sqlite', 'mssql', 'oracle'):
+        made = []
+
+        def mk(it, *c, made=made):
+            q = Obj('SaSelect', _fluent=True, _log=[], _n=len(made))
+            made.append(q)
+            return q
+        inner = Obj('Select', targets=[Obj('Star')], distinct=False, from_table=Obj('Identifier', parts=['u'], alias=None), where=None, group_by=None, having=None,
+                    order_by=None, limit=None, offset=None, cte=None, mode=None, using=None, alias=None, parentheses=False)
+        cte = Obj('CommonTableExpression', name=Obj('Identifier', parts=['t'], alias=None), query=inner, columns=None)
+        node = Obj('Select', targets=[Obj('Star')], distinct=False, from_table=Obj('Identifier', parts=['t'], alias=None), where=None, group_by=None, having=None,
+                   order_by=None, limit=None, offset=None, cte=[cte], mode=None, using=None, alias=None, parentheses=False)
+        stubs = {'sa.select': mk, 'self.to_expression': lambda it, t: ('expr', id(t)), 'self.to_table': lambda it, t: ('table', t.parts[-1]),
+                 'self.get_alias': lambda it, x: ('alias', x.parts[-1]) if isinstance(x, Obj) else x}
+        it = Interp.for_file(ctx.src, FILE, {'Join': set(), 'Select': set(), 'Identifier': set(), 'Union': set(), 'Intersect': set(), 'Except': set(), 'NativeQuery': set()},
+                             stubs, methods=methods)
+        label = f'dialect={dname}'
+        try:
+            it.call_function(ps, [Obj('SqlalchemyRender', dialect=Obj('Dialect', name=dname)), node], {}, Env())
+        except Raised as r:
+            ctx.ob('C06.cte-scope', label, r.exc_name == 'NotImplementedError', f'[{label}] prepare_select raises {r.exc_name} on WITH t AS (SELECT * FROM u) SELECT * FROM t',
+                   file=FILE, line=ps.lineno)
+            nrows += 1
+            continue
+        nrows += 1
+        ctes = [(q, a, k) for q in made for n, a, k in q.attrs['_log'] if n == 'cte']
+        adds = [(q, a, k) for q in made for n, a, k in q.attrs['_log'] if n == 'add_cte']
+        ok = len(ctes) == 1 and len(adds) == 1 and ctes[0][0] is not adds[0][0] and bool(ctes[0][2].get('nesting', ctes[0][1][1] if len(ctes[0][1]) > 1 else False)) \
+            and (('alias', 't') in ctes[0][1] or ctes[0][2].get('name') == ('alias', 't'))
+        ctx.ob('C06.cte-scope', label, ok,
+               f'[{label}] WITH t AS (SELECT * FROM u) SELECT * FROM t: expected <select>.add_cte(<select of the cte>.cte(<name t>, nesting=True)); got '
+               f'cte{[(a, k) for _, a, k in ctes]} add_cte x{len(adds)}: a common table expression that is not nested is written at the top of the whole statement - inside a '
+               f'sub-select its name then also captures a table of the same name outside', file=FILE, line=ps.lineno,
+               witness='select a from t where a in (with t as (select a from u where a > 1) select a from t)')
+    ctx.setcount('cte_rows', nrows)
+    ctx.floor('cte_rows', 5)
+
+
 def run(ctx):
     ctx.explanation = (
         'Exhaustiveness / table agreement between the grammars\' finite vocabularies and the renderer\'s dispatch code: '
@@ -220,6 +266,7 @@ def run(ctx):
                    witness=f'select * from a {jt.lower()} b on a.x = b.x')
     # set operations: see the interpreted table below (two operands and chains) --------------------------------------------------------------
     clause_table(ctx, cls, ps)
+    cte_table(ctx, cls, ps)
     # every occurrence of a table in FROM is its own SQLAlchemy object: SQLAlchemy correlates sub-queries by object identity, so one shared table object makes an
     # inner FROM item disappear (`exists (select 1 from t, s ..)` inside a query FROM t loses its own t)
     tt = function_named(cls, 'to_table')
